@@ -56,6 +56,10 @@ def body_split(backing, n, k, i):
         return False
     if max(sizes) - min(sizes) > 1:
         return False
+    # a second split of the same object gives the same shards (nothing is left behind by the first call)
+    again = ds.split(k)
+    if len(again) != k or [list(p) for p in again] != [list(p) for p in parts]:
+        return False
     # shard(k, i) == split(k)[i], for every integer i
     try:
         sh = ds.shard(k, i)
